@@ -56,6 +56,9 @@ var c09Pats = []c09Pat{
 	{"N1", []string{"foo", "<a>", "bar"}, 2, 1},               // "foo <a> <!bar>"      : foo <a> | nicht: foo <a> bar
 	{"N3", []string{"foo", "mit", "<a>", "<b>"}, 1, 2},        // "foo <!mit> <a> <b>"  : foo <a> <b> | nicht: foo mit <a> <b>
 	{"N4", []string{"foo", "<a>", "bar", "mit", "<b>"}, 2, 2}, // "foo <a> <!bar> mit <b>": foo <a> mit <b> | nicht: foo <a> bar mit <b>
+	// a number literal as a fixed part of the pattern: two patterns that differ in nothing else
+	{"P6", []string{"foo", "1", "<a>"}, -1, 1},
+	{"P7", []string{"foo", "2", "<a>"}, -1, 1},
 }
 
 const (
@@ -67,6 +70,8 @@ const (
 	patN1
 	patN3
 	patN4
+	patP6
+	patP7
 )
 
 // c09Entry is one declaration of a population.
@@ -249,7 +254,7 @@ type c09Unit struct {
 	render string // canonical rendering of the argument as it appears in the AST
 }
 
-// the vocabulary {foo, bar, mit, 1, -1, x, t, (x plus 2), "s"}
+// the vocabulary {foo, bar, mit, 1, -1, x, t, (x plus 2), "s", 2}
 func (w *c09World) units() []c09Unit {
 	mk := func(text string, word, arg bool, ty string, ass bool, render string) c09Unit {
 		return c09Unit{text, am.Unit{Text: text, Word: word, Arg: arg, Type: ty, Assignable: ass}, render}
@@ -259,18 +264,19 @@ func (w *c09World) units() []c09Unit {
 		mk(foo, true, true, "", false, foo),
 		mk(bar, true, true, "", false, bar),
 		mk("mit", true, false, "", false, ""),
-		mk("1", false, true, "Zahl", false, "1"),
+		mk("1", true, true, "Zahl", false, "1"), // also a fixed part of the patterns P6
 		mk("-1", false, true, "Zahl", false, "-1"),
 		mk("x", false, true, "Zahl", true, "x"),
 		mk("t", false, true, "Text", true, "t"),
 		mk("(x plus 2)", false, true, "Zahl", false, "(x plus 2)"),
 		mk("\"s\"", false, true, "Text", false, "\"s\""),
+		mk("2", true, true, "Zahl", false, "2"), // fixed part of the patterns P7
 	}
 }
 
-const c09NUnits = 9
+const c09NUnits = 10
 
-// c09Seq decodes sequence number n of length L (base-9 digits, most significant first).
+// c09Seq decodes sequence number n of length L (base-c09NUnits digits, most significant first).
 func c09Seq(n int64, L int) []int {
 	s := make([]int, L)
 	for k := L - 1; k >= 0; k-- {
@@ -365,7 +371,7 @@ func c09Sigs2(wide bool) [][]int {
 // c09Pool builds a declaration pool: patterns P1..P5 x signatures.
 func c09Pool(sigs2 [][]int) []c09Entry {
 	var out []c09Entry
-	for _, p := range []int{patP1, patP2} {
+	for _, p := range []int{patP1, patP2, patP6, patP7} {
 		for _, s := range c09Sigs1() {
 			out = append(out, c09Entry{pat: p, tys: s})
 		}
